@@ -200,6 +200,14 @@ Proof.
   unfold W. split; intros [n Hn]; exists n; [rewrite <- (sim_wn gen_basis aw n p q Hs)|rewrite (sim_wn gen_basis aw n p q Hs)]; exact Hn.
 Qed.
 
+Lemma SpL_hashF : forall p q, SpL p -> SpL q -> hash_of p = hash_of q ->
+  (forall n, wn position (succs gen_basis) (terminal aw) (attp aw) n p = wn position (succs gen_basis) (terminal aw) (attp aw) n q) /\
+  to_move_white p = to_move_white q /\ terminal aw p = terminal aw q.
+Proof.
+  intros p q Hp Hq Eh. pose proof (SpL_hash_sim p q Hp Hq Eh) as Hs.
+  split; [intros n; now apply sim_wn|]. split; [now apply sim_to_move|now apply sim_terminal].
+Qed.
+
 Lemma SpL_nonzero : forall p, SpL p -> hash_of p <> 0.
 Proof.
   intros p (r & Hr & Hs). rewrite (sim_hash_of p r Hs).
